@@ -29,12 +29,19 @@ abbrev Row := List Cell
 /-- what the csv reader hits after the last row it yields -/
 inductive Tail where
   | eof | csvError | decodeError
+  | ioError (c : Cls)      -- the byte stream itself failed (a gzip stream: EOFError, zlib.error, BadGzipFile)
 deriving Repr, DecidableEq
 
 def Tail.stop : Tail → Option Cls
   | .eof => none
   | .csvError => some .CsvError
   | .decodeError => some .UnicodeDecodeError
+  | .ioError c => some c
+
+/-- the classes a stream failure hands in -/
+def Tail.io : Tail → List Cls
+  | .ioError c => [c]
+  | _ => []
 
 /-- a reader result together with the number of loop iterations made to get there -/
 structure Run (α : Type) where
@@ -89,18 +96,22 @@ def intCell : Option (Option Cell) → R Int
   | some none => raise .TypeError           -- int(None)
   | some (some c) => pyIntStr c
 
-/-- `bool(ast.literal_eval(str(row[k])))` -/
-def boolCell (lit : Cell → Lit) : Option (Option Cell) → R Bool
+/-- the `literal_eval` failure classes that `load_from_csv` turns into ValueError in the current source
+    (empty before the repair of C20.2: the bare call) -/
+def litCaught : List Cls := Gen.c20ManifestLitCaught.filterMap Cls.ofName
+
+/-- `bool(ast.literal_eval(str(row[k])))`, inside `try … except <caught> as exc: raise ValueError(..) from exc` -/
+def boolCell (caught : List Cls) (lit : Cell → Lit) : Option (Option Cell) → R Bool
   | none => raise .KeyError
   | some none => pure false                 -- str(None) = "None" -> None -> False
   | some (some c) =>
     match lit c with
     | .val b => pure b
-    | .exc c => raise c
+    | .exc c => if caught.contains c then raise .ValueError else raise c
     | .unmodelled => decline "ast.literal_eval: outside the modelled fragment"
 
 /-- the per-row conversions, in the order the code makes them -/
-def convertRow (lit : Cell → Lit) (fields : List Cell) (row : Row) : R MfRow :=
+def convertRow (caught : List Cls) (lit : Cell → Lit) (fields : List Cell) (row : Row) : R MfRow :=
   match intCols with
   | [c1, c2, c3, c4] => do
     -- introws = ("num", "scaled", "ksize", "n_hashes"), in this order
@@ -108,27 +119,32 @@ def convertRow (lit : Cell → Lit) (fields : List Cell) (row : Row) : R MfRow :
     let b ← intCell (cellOf fields row c2)
     let c ← intCell (cellOf fields row c3)
     let d ← intCell (cellOf fields row c4)
-    let ab ← boolCell lit (cellOf fields row boolCol)
+    let ab ← boolCell caught lit (cellOf fields row boolCol)
     pure ⟨a, b, c, d, ab⟩
   | _ => decline "introws changed"
 
 /-- `for row in r:` — DictReader skips rows that are `[]`; one unit of work per row read -/
-def loadRows (lit : Cell → Lit) (fields : List Cell) (tail : Tail) :
+def loadRows (caught : List Cls) (lit : Cell → Lit) (fields : List Cell) (tail : Tail) :
     List Row → List MfRow → Nat → Run (List MfRow)
   | [], acc, w =>
     match tail.stop with
     | none => ⟨pure acc.reverse, w⟩
     | some c => ⟨raise c, w + 1⟩
-  | [] :: rest, acc, w => loadRows lit fields tail rest acc (w + 1)
+  | [] :: rest, acc, w => loadRows caught lit fields tail rest acc (w + 1)
   | (c :: cs) :: rest, acc, w =>
-    match convertRow lit fields (c :: cs) with
-    | .ok r => loadRows lit fields tail rest (r :: acc) (w + 1)
+    match convertRow caught lit fields (c :: cs) with
+    | .ok r => loadRows caught lit fields tail rest (r :: acc) (w + 1)
     | .error e => ⟨.error e, w + 1⟩
 
 inductive FirstLine where
   | decodeError
+  | ioError (c : Cls)      -- the first read of the byte stream failed (e.g. `gzip.open` on a file that is not gzip)
   | line (s : List Char)
 deriving Repr
+
+def FirstLine.io : FirstLine → List Cls
+  | .ioError c => [c]
+  | _ => []
 
 structure CsvDoc where
   first : FirstLine
@@ -152,10 +168,11 @@ def endsNonAscii (raw : List Char) : Bool :=
   | c :: _ => !isAscii c
   | [] => false
 
-/-- `CollectionManifest.load_from_csv(fp)` -/
-def loadManifest (lit : Cell → Lit) (doc : CsvDoc) : Run (List MfRow) :=
+/-- `CollectionManifest.load_from_csv(fp)`, for a given list of `literal_eval` classes wrapped into ValueError -/
+def loadManifestV (caught : List Cls) (lit : Cell → Lit) (doc : CsvDoc) : Run (List MfRow) :=
   match doc.first with
   | .decodeError => ⟨raise .UnicodeDecodeError, 0⟩
+  | .ioError c => ⟨raise c, 0⟩
   | .line raw =>
     -- `.rstrip()`: trailing non-ASCII could be Unicode whitespace
     if endsNonAscii raw then ⟨decline "rstrip: non-ASCII tail", 0⟩ else
@@ -175,7 +192,38 @@ def loadManifest (lit : Cell → Lit) (doc : CsvDoc) : Run (List MfRow) :=
       | fields :: rest =>
         if fields.isEmpty then ⟨raise .ValueError, 1⟩ else
         if missingKey fields then ⟨raise .ValueError, 1 + requiredKeys.length⟩ else
-        loadRows lit fields doc.tail rest [] (1 + requiredKeys.length)
+        loadRows caught lit fields doc.tail rest [] (1 + requiredKeys.length)
+
+/-- `CollectionManifest.load_from_csv(fp)` as the current source has it -/
+def loadManifest (lit : Cell → Lit) (doc : CsvDoc) : Run (List MfRow) := loadManifestV litCaught lit doc
+
+/-! ### manifest by file name: `CollectionManifest.load_from_filename` -/
+
+/-- `load_from_sql(filename)`: the SQLite probe that comes first -/
+inductive SqlRes where
+  | notSqlite              -- `load_sqlite_index` returned None
+  | loaded                 -- an SQLite manifest
+  | raises (c : Cls)
+deriving Repr
+
+structure MfFile where
+  name : List Char
+  sql : SqlRes
+  /-- the file read through `open(filename, "rt", newline="")` -/
+  plain : CsvDoc
+  /-- the file read through `gzip.open(filename, "rt", newline="")` (a file that is not gzip fails at the first read) -/
+  gz : CsvDoc
+deriving Repr
+
+def endsWith (s suffix : List Char) : Bool := startsWith s.reverse suffix.reverse
+
+/-- `load_from_filename`: SQLite first; then the NAME decides between `gzip.open` and `open` — the content is not
+    sniffed ("CTB: fix this to actually try loading this as .gz") -/
+def loadManifestFile (lit : Cell → Lit) (f : MfFile) : Run (List MfRow) :=
+  match f.sql with
+  | .loaded => ⟨decline "an SQLite manifest", 0⟩
+  | .raises c => ⟨raise c, 0⟩
+  | .notSqlite => loadManifest lit (if endsWith f.name ".gz".toList then f.gz else f.plain)
 
 /-! ### picklist -/
 
@@ -310,7 +358,12 @@ def pickRows (pl : Picklist) (fields : List Cell) (tail : Tail) :
 /-- the file as `FileInputCSV` + `_DictReader_with_version` see it -/
 structure PickDoc where
   isFile : Bool             -- os.path.exists and os.path.isfile
-  peekOk : Bool             -- the first buffered chunk decodes as UTF-8 on its own
+  /-- `FileInputCSV` tries `gzip.open(..)` + `peek(1)` first: BadGzipFile means "not gzip, read it as plain text"
+      (then the fields below describe the plain stream); any other exception of that probe escapes (`some c`);
+      a real gzip stream is read through the same `_DictReader_with_version` (the fields describe the inflated stream) -/
+  sniff : Option Cls
+  peekStrictOk : Bool       -- the first buffered chunk decodes as UTF-8 on its own (`chunk.decode('utf-8')`)
+  peekIncrOk : Bool         -- … decodes incrementally (a character cut by the end of the chunk is fine)
   first : FirstLine         -- readline() (only consumed when the text starts with '#')
   startsHash : Bool
   rowsRest : List Row       -- csv rows after the first physical line
@@ -324,13 +377,20 @@ def pickBody (doc : PickDoc) : R (List Row × Tail) :=
   if doc.startsHash then
     match doc.first with
     | .decodeError => raise .UnicodeDecodeError
+    | .ioError c => raise c
     | .line l => if startsWith l "# ".toList then pure (doc.rowsRest, doc.tailRest) else raise .AssertionError
   else pure (doc.rowsAll, doc.tailAll)
 
-/-- `SignaturePicklist.load()` -/
-def loadPicklist (pl : Picklist) (doc : PickDoc) : Run PickResult :=
+/-- did `_DictReader_with_version` manage to decode the peeked chunk? -/
+def peekOk (incremental : Bool) (doc : PickDoc) : Bool := if incremental then doc.peekIncrOk else doc.peekStrictOk
+
+/-- `SignaturePicklist.load()`, for the incremental (`true`) or strict (`false`) decoding of the peeked chunk -/
+def loadPicklistV (incremental : Bool) (pl : Picklist) (doc : PickDoc) : Run PickResult :=
   if !doc.isFile then ⟨raise .ValueError, 0⟩ else
-  if !doc.peekOk then ⟨raise .CsvError, 0⟩ else
+  match doc.sniff with
+  | some c => ⟨raise c, 0⟩
+  | none =>
+  if !peekOk incremental doc then ⟨raise .CsvError, 0⟩ else
   match pickBody doc with
   | .error e => ⟨.error e, 0⟩
   | .ok (rows, tail) =>
@@ -343,6 +403,9 @@ def loadPicklist (pl : Picklist) (doc : PickDoc) : Run PickResult :=
       if fields.isEmpty then ⟨raise .ValueError, 1⟩ else
       if !(fields.contains pl.column || metaColtypes.contains pl.coltype) then ⟨raise .ValueError, 1⟩ else
       pickRows pl fields tail rest ⟨0, [], []⟩ 1
+
+/-- `SignaturePicklist.load()` as the current source has it -/
+def loadPicklist (pl : Picklist) (doc : PickDoc) : Run PickResult := loadPicklistV Gen.c20PeekIncremental pl doc
 
 end Sm.CsvR
 
